@@ -30,14 +30,15 @@ structure CallKeeps (s s' : State) : Prop where
   heap_len : s'.heap.length = s.heap.length
   labels : ∀ r, (s'.obj r).labels = (s.obj r).labels
   kinds : ∀ r, (s'.obj r).kind = (s.obj r).kind
+  atts : ∀ r, (s'.obj r).maxAttempts = (s.obj r).maxAttempts
   ctx : ctxCore s'.ctx = ctxCore s.ctx
   pos : PosOnly s.atoms s'.atoms
 
-theorem CallKeeps.refl (s : State) : CallKeeps s s := ⟨rfl, fun _ => rfl, fun _ => rfl, rfl, PosOnly.refl _⟩
+theorem CallKeeps.refl (s : State) : CallKeeps s s := ⟨rfl, fun _ => rfl, fun _ => rfl, fun _ => rfl, rfl, PosOnly.refl _⟩
 
 theorem CallKeeps.trans {a b c : State} (h1 : CallKeeps a b) (h2 : CallKeeps b c) : CallKeeps a c :=
   ⟨h2.heap_len.trans h1.heap_len, fun r => (h2.labels r).trans (h1.labels r),
-   fun r => (h2.kinds r).trans (h1.kinds r), h2.ctx.trans h1.ctx,
+   fun r => (h2.kinds r).trans (h1.kinds r), fun r => (h2.atts r).trans (h1.atts r), h2.ctx.trans h1.ctx,
    h1.pos.trans h2.pos⟩
 
 theorem obj_of_heap_eq (s s' : State) (r : Nat) (h : s'.heap[r]? = s.heap[r]?) : s'.obj r = s.obj r := by
@@ -45,7 +46,7 @@ theorem obj_of_heap_eq (s s' : State) (r : Nat) (h : s'.heap[r]? = s.heap[r]?) :
 
 theorem dispCall_keeps (r : Nat) (s : State) (hr : r < s.heap.length) : CallKeeps s (dispCall r s).2 := by
   have h := dispCall_spec r s hr
-  refine ⟨h.heap_len, ?_, ?_, h.ctx_same, ?_⟩
+  refine ⟨h.heap_len, ?_, ?_, ?_, h.ctx_same, ?_⟩
   · intro r'
     by_cases hrr : r' = r
     · subst hrr; exact h.labels_same
@@ -54,6 +55,10 @@ theorem dispCall_keeps (r : Nat) (s : State) (hr : r < s.heap.length) : CallKeep
     by_cases hrr : r' = r
     · subst hrr; exact h.kind_same
     · exact congrArg MoveObj.kind (obj_of_heap_eq _ _ _ (h.heap_other r' hrr))
+  · intro r'
+    by_cases hrr : r' = r
+    · subst hrr; exact h.att_same
+    · exact congrArg MoveObj.maxAttempts (obj_of_heap_eq _ _ _ (h.heap_other r' hrr))
   · cases hok : (dispCall r s).1 with
     | false => rw [(h.fail_atoms hok).1]; exact PosOnly.refl _
     | true =>
@@ -61,8 +66,8 @@ theorem dispCall_keeps (r : Nat) (s : State) (hr : r < s.heap.length) : CallKeep
       rw [hd]; exact posOnly_applyDisp _ _ _ _
 
 theorem setObj_keeps (s : State) (r : Nat) (m : MoveObj) (hl : m.labels = (s.obj r).labels)
-    (hk : m.kind = (s.obj r).kind) : CallKeeps s (s.setObj r m) := by
-  refine ⟨by simp [State.setObj], ?_, ?_, rfl, PosOnly.refl _⟩
+    (hk : m.kind = (s.obj r).kind) (ha : m.maxAttempts = (s.obj r).maxAttempts) : CallKeeps s (s.setObj r m) := by
+  refine ⟨by simp [State.setObj], ?_, ?_, ?_, rfl, PosOnly.refl _⟩
   · intro r'
     by_cases hrr : r' = r
     · subst hrr
@@ -77,6 +82,13 @@ theorem setObj_keeps (s : State) (r : Nat) (m : MoveObj) (hl : m.labels = (s.obj
       · rw [obj_setObj _ _ _ hr]; exact hk
       · simp [State.obj, State.setObj, List.getD_eq_getElem?_getD, List.getElem?_set, hr]
     · exact congrArg MoveObj.kind (obj_of_heap_eq _ _ _ (heap_setObj_ne s r r' m hrr))
+  · intro r'
+    by_cases hrr : r' = r
+    · subst hrr
+      by_cases hr : r' < s.heap.length
+      · rw [obj_setObj _ _ _ hr]; exact ha
+      · simp [State.obj, State.setObj, List.getD_eq_getElem?_getD, List.getElem?_set, hr]
+    · exact congrArg MoveObj.maxAttempts (obj_of_heap_eq _ _ _ (heap_setObj_ne s r r' m hrr))
 
 theorem compDispLoop_keeps (rs : List Nat) (acc : List (Option Int)) (s : State)
     (hrs : ∀ r ∈ rs, r < s.heap.length) : CallKeeps s (compDispLoop rs acc s).2 := by
@@ -94,8 +106,8 @@ theorem compDispLoop_keeps (rs : List Nat) (acc : List (Option Int)) (s : State)
         rw [← hs1]
         have : CallKeeps ({ s with inp := i } : State)
             (({ s with inp := i } : State).setObj r { s.obj r with toDisplace := some l }) :=
-          setObj_keeps _ r _ rfl rfl
-        exact ⟨this.heap_len, this.labels, this.kinds, this.ctx, this.pos⟩
+          setObj_keeps _ r _ rfl rfl rfl
+        exact ⟨this.heap_len, this.labels, this.kinds, this.atts, this.ctx, this.pos⟩
       have hr1 : r < s1.heap.length := by rw [k1.heap_len]; exact hr
       have k2 := dispCall_keeps r s1 hr1
       rcases hdc : dispCall r s1 with ⟨ok, s2⟩
